@@ -21,6 +21,11 @@ def plan(prop, tier, seed, t0):
         # parse direction: systematic program families (39 register shapes x 3 declaration layouts, 31 unsupported statements x
         # 4 positions, every phase k/d in 9 spellings, statements beyond the property) and seeded random programs
         dict(name="progs", engine="qasm", args=["--enum-progs", "--progs", 1500 if q else 60000], **T),
+        # extended programs (spec/Qasm.tla QParseX): whole-register operands (broadcast over registers of equal size, size-1 operands
+        # repeated, mismatches, overlaps) of every gate of the property's list, user gate definitions (parameters, nesting, empty body,
+        # bodies with barrier / U / undefined names, applied to qubits / whole registers / never) and seeded random ones;
+        # Circuit::from_file on missing / directory / empty paths.  Every third text of ALL traces is read through Circuit::from_file.
+        dict(name="xprogs", engine="qasm", args=["--enum-xprogs", "--xprogs", 1500 if q else 40000], **T),
     ]
     return run_plan(prop, tier, seed, t0, mcs, traces, "model_checking", COMMON_ASSUME + [
                         "texts are abstracted to programs (registers, statements, parameters as rationals); the harness renders a program to "
@@ -29,7 +34,10 @@ def plan(prop, tier, seed, t0):
                         "approximation (crate openqasm, num-rational) are exercised on the real code only, not modelled in TLA+",
                         "phases written as plain decimals (0.785398) are compared in the harness with tolerance 1e-5 (units of pi); TLC only "
                         "sees the boolean",
-                        "whole-register operands of gates, user gate definitions and several classical registers are outside the abstract syntax"],
+                        "whole-register operands of gates and user gate definitions are modelled by the extension QParseX of spec/Qasm.tla "
+                        "(denotation per OpenQASM 2: broadcast, inlining); for them the property only demands 'the denoted circuit or an error, "
+                        "never a panic, never dropped gates' (DenotedOrErr) and an error where barrier / reset / U / an undefined name is reached; "
+                        "several classical registers are outside the abstract syntax"],
                     "MC: the front-end machine of spec/Qasm.tla (declarations -> consecutive offsets; statement by statement writer with absorbing "
                     "error; name table; printer) on every circuit over the property's gate list plus pp / measure_r / measure_d up to the bound "
                     "(RoundTrip, OutsideInv, PrintShape, DomainCovered) and on every abstract program with 1-3 registers and <= 2-3 statements incl. "
@@ -38,7 +46,10 @@ def plan(prop, tier, seed, t0):
                     "to_qasm and read back by from_qasm (L2 RoundTripOK: parsed circuit = original, decided by TLC on the logged circuits with raw "
                     "[num, den] phases; circuits with undeclared gate names must give Err) or one generated program parsed by from_qasm and "
                     "compared by TLC with QParse(prog) of the specification (expected ok: same qubit count / kinds / qubits / phases; expected "
-                    "err: Err, never panic, never Ok); non-trivial = circuits with >= 1 gate, programs with >= 1 statement")
+                    "err: Err, never panic, never Ok); extended programs (whole-register operands, user gate definitions) are compared with "
+                    "QParseX(prog): an accepted text must give exactly the denoted gate list, a text reaching an unsupported construct must give "
+                    "Err; GType::num_qubits against the arity each gate name is declared with; every third text goes through Circuit::from_file; "
+                    "non-trivial = circuits with >= 1 gate, programs with >= 1 statement")
 
 
 META = dict(level="model_checking", engine="qasm", design_ref="spec/Qasm.tla header (C14)",
@@ -55,7 +66,10 @@ META = dict(level="model_checking", engine="qasm", design_ref="spec/Qasm.tla hea
                  "produced (exhaustively for every phase k/d with d <= 16 on rz and rx, every small circuit, zero-gate circuits; seeded random "
                  "circuits up to 4 qubits x 10 gates) and compares from_qasm on harness-rendered texts of generated programs (several registers, "
                  "three declaration layouts, nine spellings of every phase (six exact, three with a decimal part) incl. un-normalised values, 31 unsupported statements at every "
-                 "position) with QParse of the specification.  The claim is model checking of the transcribed machine plus per-execution "
+                 "position) with QParse of the specification; texts with whole-register operands (broadcast) and user gate definitions are compared with the "
+                 "extension QParseX (OpenQASM 2 denotation: applications in lock-step, bodies inlined with parameters substituted): an accepted text "
+                 "must yield exactly the denoted gate list, a text that reaches barrier / U / an undefined name must be rejected, never a panic; "
+                 "every third text is read through Circuit::from_file.  The claim is model checking of the transcribed machine plus per-execution "
                  "validation of the code against it; what TLA+ cannot express (the text level: lexer, float approximation) is covered by the "
                  "recorded executions only.",
             note="bounded: MC <= 3 qubits x <= 3 gates and <= 3 registers x <= 3 statements; traces <= 4 qubits x <= 10 gates, <= 3 registers of <= 3 "
